@@ -35,7 +35,10 @@
        object with step None and int-or-None bounds), VFn (Token.join, a closed
        lambda of the class source, or one of the caller's `condition`
        functions), VSelf, VPos, VIterable/VIter (the constructor argument and
-       iter() of it).
+       iter() of it), VBufObj it q i (ANOTHER Buffer object given as the
+       constructor argument -- Buffer(tokenize(..)) wraps the Buffer that the
+       to_buffer decorator returns: what its source iterator still holds, its
+       queue and its cursor; its function attributes are the defaults).
 
    ---------------------------------------------------------------- semantics
    a + b     int + int; string + string (Token.__add__/__radd__/__iadd__ and
@@ -64,7 +67,20 @@
    next(self)  a call of the translated __next__.
    next(self.__iterator)  removes and returns the first element the iterator
              still holds (as a VRaw), StopIteration when there is none.
-   iter(x), hasattr(x, '__iter__')   only for the constructor argument.
+   iter(x), hasattr(x, '__iter__')   only for the constructor argument.  For a
+             VIterable l: an iterator that yields l.  For another Buffer
+             (VBufObj it q i, 0 <= i): Buffer.__iter__ returns the object
+             itself and Buffer.__next__ then yields (q ++ it)[i:] one by one
+             -- the contract of __next__ that C20gen_next proves of the
+             translated method (next_raw) -- so iter(b) is an iterator that
+             yields skipn i (q ++ it).  iter() of an iterator is that iterator.
+   isinstance(x, Buffer)   True for self and for a VBufObj, False for the other
+             values except an iterator (which may be a Buffer: OUnsup).
+   x.__iterator, x.__i  (x not self; the names are mangled to _Buffer__..., so
+             they mean the private attributes of ANOTHER Buffer)   for a
+             VBufObj it q i: the iterator holding `it` / the int i; for a
+             VIterable (a str, list, generator: no such attribute)
+             AttributeError; else OUnsup.
    x.stop    the upper bound of a slice object; AttributeError for None, int,
              bool, tuple and strings.
    x.startswith(p) / x.endswith(p)   on strings: Buffer.is_prefix / is_suffix;
@@ -97,9 +113,11 @@
              bound.   x += e  is x = x + e (no in-place mutation: strings/ints).
    assert e[, msg]   AssertionError when e is falsy; msg (translator: a
              constant or constant % attribute) is not evaluated.
-   try: B except E: H   an exception E raised in B is handled by H; the
-             translator rejects assignments to locals inside B, so H starts
-             from the locals at entry.  Other exceptions propagate.
+   try: B except E: H   an exception E raised in B is handled by H, which
+             starts from the locals at ENTRY of the try: the translator accepts
+             an assignment to a local inside B only when H does not mention
+             that local and always returns (so the difference cannot be
+             observed).  Other exceptions propagate.
    while / break / return / if   as in Python (no while-else).
    a def that falls off its end returns None.
    reading an unbound local is OUnsup.
@@ -133,7 +151,8 @@ Inductive value :=
 | VSelf
 | VPos
 | VIterable (l : list Z)
-| VIter (l : list Z).
+| VIter (l : list Z)
+| VBufObj (it q : list Z) (i : Z).
 
 Record dstate := mkD { d_it : list Z; d_q : list Z; d_i : Z;
                        d_join : value; d_init : value; d_empty : value }.
@@ -174,6 +193,8 @@ Inductive expr :=
 | ENextField (f : fld)               (* next(self.__f) *)
 | EIter (a : expr)
 | EHasIter (a : expr)                (* hasattr(a, '__iter__') *)
+| EIsBuffer (a : expr)               (* isinstance(a, Buffer) *)
+| EOtherField (a : expr) (f : fld)   (* a.__f, a not self *)
 | EIndex (a i : expr)                (* a[i], a not self *)
 | ESliceObj (lo hi : expr)           (* slice(lo, hi) as written lo:hi; omitted = ENone *)
 | EStop (a : expr)                   (* a.stop *)
@@ -573,9 +594,36 @@ Fixpoint eval (e : expr) (en : env) (d : dstate) {struct e} : eres :=
       end
     | _ => EUnsup
     end
-  | EIter a => un a (fun v d1 => match v with VIterable l => EV (VIter l) d1 | _ => EUnsup end)
+  | EIter a =>
+    un a (fun v d1 =>
+      match v with
+      | VIterable l => EV (VIter l) d1
+      | VIter l => EV (VIter l) d1
+      | VBufObj it q i =>
+        if 0 <=? i then EV (VIter (skipn (Z.to_nat i) (q ++ it))) d1 else EUnsup
+      | _ => EUnsup
+      end)
   | EHasIter a =>
-    un a (fun v d1 => match v with VIterable _ => EV (VBool true) d1 | _ => EUnsup end)
+    un a (fun v d1 =>
+      match v with
+      | VIterable _ | VBufObj _ _ _ => EV (VBool true) d1
+      | _ => EUnsup
+      end)
+  | EIsBuffer a =>
+    un a (fun v d1 =>
+      match v with
+      | VSelf | VBufObj _ _ _ => EV (VBool true) d1
+      | VIter _ => EUnsup
+      | _ => EV (VBool false) d1
+      end)
+  | EOtherField a f =>
+    un a (fun v d1 =>
+      match v, f with
+      | VBufObj it _ _, F_iterator => EV (VIter it) d1
+      | VBufObj _ _ i, F_i => EV (VInt i) d1
+      | VIterable _, _ => EX AttributeError d1
+      | _, _ => EUnsup
+      end)
   | EIndex a i => bin a i (fun v1 v2 d2 => lift_rv (py_getitem v1 v2) d2)
   | ESliceObj lo hi =>
     bin lo hi (fun v1 v2 d2 =>
@@ -881,6 +929,10 @@ Definition run_meth (c : cls) (m : meth) (vs : list value) (d : dstate) : outcom
    attributes __join, __init, __empty *)
 Definition conc (fj fi fe : value) (s : state) : dstate :=
   mkD (skipn (mat s) (items s)) (firstn (mat s) (items s)) (cursor s) fj fi fe.
+
+(* the same object as a constructor argument of ANOTHER Buffer: Buffer(b) *)
+Definition buf_arg (s : state) : value :=
+  VBufObj (skipn (mat s) (items s)) (firstn (mat s) (items s)) (cursor s).
 
 (* an object on which no attribute has been set yet (the translator checks
    that __init__ reads no attribute of self) *)
